@@ -285,39 +285,48 @@ Definition Good (x : xst) (r : st * out) : Prop :=
   | (_, Raise) => False
   end.
 
+Definition GoodD (dexp : Z) (x : xst) (r : st * out) : Prop :=
+  match r with
+  | (s', Act a) => exists x', exec x a = Some x' /\ Inv dexp s' x'
+  | (_, Stop) => False
+  | (_, Raise) => False
+  end.
+Lemma GoodD_Good d x r : GoodD d x r -> Good x r.
+Proof. destruct r as [s' [a| |]]; cbn; auto. intros (x' & H1 & H2). exists x', d. auto. Qed.
+
 Ltac fin := splits; auto; try lia.
 
 (* PTRevAct, PTAdj *)
-Lemma revact_ok d0 s x f n0s : InvCore d0 s x -> pcv s = PTRevAct n0s -> Good x (resume (S f) s).
+Lemma revact_ok d0 s x f n0s : InvCore d0 s x -> pcv s = PTRevAct n0s -> GoodD d0 x (resume (S f) s).
 Proof.
   intros (Hrr & Hr & Hpc) Epc. cbn [resume]. rewrite Epc in *. cbn zeta in Hpc.
-  destruct Hpc as ((Hper & Hlen & Hpe) & Hwi & Hwd & Hn & Hn0 & Hm & HPhi). cbn [Good].
+  destruct Hpc as ((Hper & Hlen & Hpe) & Hwi & Hwd & Hn & Hn0 & Hm & HPhi). cbn [GoodD].
   pose proof Hper as [Hp0 _].
-  eexists. exists d0. split.
+  eexists. split.
   - apply exec_rev; try lia. exact Hwd.
   - unfold Inv, norm, InvCore. cbn [pcv mk n_ r_ snaps rr bin wics wdeps done fwd]. cbn zeta.
     replace (N - (r_ s + 1)) with (n_ s - 1) by lia. fin.
 Qed.
-Lemma adj_ok d0 s x f n0s : InvCore d0 s x -> pcv s = PTAdj n0s -> Good x (resume (S f) s).
+Lemma adj_ok d0 s x f n0s : InvCore d0 s x -> pcv s = PTAdj n0s -> GoodD d0 x (resume (S f) s).
 Proof.
   intros (Hrr & Hr & Hpc) Epc. cbn [resume]. rewrite Epc in *. cbn zeta in Hpc.
-  destruct Hpc as ((Hper & Hlen & Hpe) & Hwd & Hf & Hn & Hn0 & Hm & HPhi). cbn [Good].
-  eexists. exists d0. split.
+  destruct Hpc as ((Hper & Hlen & Hpe) & Hwd & Hf & Hn & Hn0 & Hm & HPhi). cbn [GoodD].
+  eexists. split.
   - apply (exec_fwd_work x (n_ s) (n_ s + 1) true); try assumption; try lia.
   - unfold Inv, norm, InvCore. cbn [pcv mk n_ r_ snaps rr bin wics wdeps done fwd]. cbn zeta.
     replace (n_ s + 1 - 1) with (n_ s) by lia. fin.
 Qed.
 
 (* PTAfterCopy *)
-Lemma aftercopy_ok d0 s x f n0s : InvCore d0 s x -> pcv s = PTAfterCopy n0s -> Good x (resume (S f) s).
+Lemma aftercopy_ok d0 s x f n0s : InvCore d0 s x -> pcv s = PTAfterCopy n0s -> GoodD d0 x (resume (S f) s).
 Proof.
   intros (Hrr & Hr & Hpc) Epc. cbn [resume]. rewrite Epc in *. cbn zeta in Hpc.
   destruct Hpc as ((Hper & Hlen & Hpe) & Hwd & Hf & Hm & (r1 & Hsn) & Hn & HPhi).
   replace (bs + 1 - len (snaps s) + 1 <? 1) with false by (symmetry; apply Z.ltb_ge; unfold S_ in *; lia).
   pose proof (adv_range (N - r_ s - n_ s) (bs + 1 - len (snaps s) + 1) ltac:(lia) ltac:(unfold S_ in *; lia)) as Ha.
   pose proof (T_rec (N - r_ s - n_ s) (bs + 1 - len (snaps s) + 1) ltac:(lia) ltac:(unfold S_ in *; lia)) as HT.
-  set (a := adv (N - r_ s - n_ s) (bs + 1 - len (snaps s) + 1)) in *. cbn [Good].
-  eexists. exists d0. split.
+  set (a := adv (N - r_ s - n_ s) (bs + 1 - len (snaps s) + 1)) in *. cbn [GoodD].
+  eexists. split.
   - apply (exec_fwd_work x (n_ s) (n_ s + a) false); try assumption; try lia; try discriminate.
   - unfold Inv, norm, InvCore. cbn [pcv mk n_ r_ snaps rr bin wics wdeps done fwd]. cbn zeta.
     fin.
@@ -337,7 +346,7 @@ Proof.
 Qed.
 
 (* PTInner *)
-Lemma inner_ok d0 s x f n0s : InvCore d0 s x -> pcv s = PTInner n0s -> Good x (resume (S f) s).
+Lemma inner_ok d0 s x f n0s : InvCore d0 s x -> pcv s = PTInner n0s -> GoodD d0 x (resume (S f) s).
 Proof.
   intros (Hrr & Hr & Hpc) Epc. cbn [resume]. rewrite Epc in *. cbn zeta in Hpc.
   destruct Hpc as ((Hper & Hlen & Hpe) & Hwi & Hwd & Hf & Hn & Hfree & Hm & Hne & HPhi).
@@ -347,8 +356,8 @@ Proof.
     replace (bs + 1 - len (snaps s) <? 1) with false by (symmetry; apply Z.ltb_ge; lia).
     pose proof (adv_range (N - r_ s - n_ s) (bs + 1 - len (snaps s)) ltac:(lia) ltac:(lia)) as Ha.
     pose proof (T_rec (N - r_ s - n_ s) (bs + 1 - len (snaps s)) ltac:(lia) ltac:(lia)) as HT.
-    set (a := adv (N - r_ s - n_ s) (bs + 1 - len (snaps s))) in *. cbn [Good].
-    eexists. exists d0. split.
+    set (a := adv (N - r_ s - n_ s) (bs + 1 - len (snaps s))) in *. cbn [GoodD].
+    eexists. split.
     + apply exec_fwd_bin; try assumption; try lia.
       * eapply mirrorT_lookup_none; [exact Hm|lia].
       * apply (not_period_inside n0s); [exact Hper|]. unfold pend in Hpe. lia.
@@ -362,8 +371,8 @@ Proof.
       * cbn [segs]. replace (N - r_ s - (n_ s + a)) with (N - r_ s - n_ s - a) by lia.
         replace (n_ s + a - n_ s) with a by lia.
         replace (bs + 1 - (len (snaps s) + 1)) with (bs + 1 - len (snaps s) - 1) by lia. unfold S_. lia.
-  - replace (n_ s =? N - r_ s - 1) with true by (symmetry; apply Z.eqb_eq; lia). cbn [negb Good].
-    eexists. exists d0. split.
+  - replace (n_ s =? N - r_ s - 1) with true by (symmetry; apply Z.eqb_eq; lia). cbn [negb GoodD].
+    eexists. split.
     + apply (exec_fwd_work x (n_ s) (n_ s + 1) true); try assumption; try lia.
     + unfold Inv, norm, InvCore. cbn [pcv mk n_ r_ snaps rr bin wics wdeps done fwd]. cbn zeta.
       replace (n_ s + 1 - 1) with (n_ s) by lia.
@@ -371,7 +380,7 @@ Proof.
 Qed.
 
 (* PTBlock with steps of the block still to reverse *)
-Lemma block_ok d0 s x f n0s : InvCore d0 s x -> pcv s = PTBlock n0s -> r_ s < N - n0s -> Good x (resume (S f) s).
+Lemma block_ok d0 s x f n0s : InvCore d0 s x -> pcv s = PTBlock n0s -> r_ s < N - n0s -> GoodD d0 x (resume (S f) s).
 Proof.
   intros (Hrr & Hr & Hpc) Epc Hlt. cbn [resume]. rewrite Epc in *. cbn zeta in Hpc.
   destruct Hpc as ((Hper & Hlen & Hpe) & Hwi & Hwd & Hm & Hn0 & HPhi).
@@ -383,7 +392,7 @@ Proof.
   - (* only the period checkpoint is left *)
     destruct Hm as (Hb & -> & Hlo & Hhi). rewrite Z.eqb_refl.
     cbn [segs] in HPhi. unfold len in HPhi. cbn [length] in HPhi. replace (S_ - Z.of_nat 0) with S_ in HPhi by lia.
-    destruct (Z.eqb_spec n0s (N - r_ s - 1)) as [Heq|Hneq]; cbn [Good]; eexists; exists d0; (split; [apply exec_load_period; try assumption; try lia; rewrite Hb; reflexivity|]).
+    destruct (Z.eqb_spec n0s (N - r_ s - 1)) as [Heq|Hneq]; cbn [GoodD]; eexists; (split; [apply exec_load_period; try assumption; try lia; rewrite Hb; reflexivity|]).
     + unfold Inv, norm, InvCore. cbn [pcv mk n_ r_ snaps rr bin wics wdeps done fwd]. cbn zeta.
       replace (N - r_ s - n0s) with 1 in HPhi by lia. rewrite T_1 in HPhi. cbn [mirrorT segs].
       unfold len. cbn [length]. unfold S_ in *. fin.
@@ -394,7 +403,7 @@ Proof.
     destruct (bin x) as [|[k [a0 e]] st'] eqn:Eb; [tauto|]. destruct Hm as (-> & -> & Hcp0 & Hcph & Hcpe & Hm').
     replace (cp =? n0s) with false by (symmetry; apply Z.eqb_neq; lia).
     assert (Hlk : lookup cp (bin x) = Some (cp, e)) by (rewrite Eb; cbn [lookup]; rewrite Z.eqb_refl; reflexivity).
-    destruct (Z.eqb_spec cp (N - r_ s - 1)) as [Heq|Hneq]; cbn [Good]; eexists; exists d0.
+    destruct (Z.eqb_spec cp (N - r_ s - 1)) as [Heq|Hneq]; cbn [GoodD]; eexists.
     + split; [apply (exec_load_bin x cp e true); try assumption; lia|].
       unfold Inv, norm, InvCore. cbn [pcv mk n_ r_ snaps rr bin wics wdeps done fwd]. cbn zeta.
       rewrite Eb. cbn [remove]. rewrite Z.eqb_refl. rewrite !len_cons in *.
@@ -405,7 +414,7 @@ Proof.
 Qed.
 
 (* PTOuter: next block, or the end of the pass *)
-Lemma outer_ok d0 s x f : InvCore d0 s x -> pcv s = PTOuter -> Good x (resume (S (S f)) s).
+Lemma outer_ok d0 s x f : InvCore d0 s x -> pcv s = PTOuter -> GoodD d0 x (resume (S (S f)) s).
 Proof.
   intros (Hrr & Hr & Hpc) Epc. cbn zeta in Hpc. rewrite Epc in Hpc.
   destruct Hpc as (Hb & Hwi & Hwd & Hbd & Hd).
@@ -416,17 +425,17 @@ Proof.
     { remember (S f) as g. cbn [resume]. rewrite Epc. replace (r_ s <? N) with true by (symmetry; apply Z.ltb_lt; lia).
       fold n0s. fold (pend n0s). rewrite Hpe. replace (r_ s =? N - (N - r_ s)) with true by (symmetry; apply Z.eqb_eq; lia).
       reflexivity. }
-    rewrite Hres. apply (block_ok (done x) _ x f n0s); [|reflexivity|cbn [r_ mk]; lia].
+    rewrite Hres. rewrite <- Hd. apply (block_ok (done x) _ x f n0s); [|reflexivity|cbn [r_ mk]; lia].
     unfold InvCore. cbn [pcv mk n_ r_ snaps]. cbn zeta. rewrite Hb. cbn [mirrorT segs]. unfold len. cbn [length].
     replace (S_ - Z.of_nat 0) with S_ by lia. rewrite Hpe. unfold S_. fin.
   - cbn [resume]. rewrite Epc. replace (r_ s <? N) with false by (symmetry; apply Z.ltb_ge; lia).
-    replace (r_ s =? N) with true by (symmetry; apply Z.eqb_eq; lia). cbn [negb Good].
-    eexists. exists d0. split; [apply exec_endrev; [lia|exact Hb]|].
+    replace (r_ s =? N) with true by (symmetry; apply Z.eqb_eq; lia). cbn [negb GoodD].
+    eexists. split; [apply exec_endrev; [lia|exact Hb]|].
     unfold Inv, norm, InvCore. cbn [pcv mk n_ r_ snaps rr bin wics wdeps done fwd]. cbn zeta. fin.
 Qed.
 
 Lemma blockend_ok d0 s x f n0s : InvCore d0 s x -> pcv s = PTBlock n0s -> r_ s = N - n0s ->
-  done x = d0 + T (pend n0s - n0s) S_ /\ Good x (resume (S (S (S f))) s).
+  done x = d0 + T (pend n0s - n0s) S_ /\ GoodD (d0 + T (pend n0s - n0s) S_) x (resume (S (S (S f))) s).
 Proof.
   intros Hinv Epc Hre. pose proof Hinv as (Hrr & Hr & Hpc). cbn zeta in Hpc. rewrite Epc in Hpc.
   destruct Hpc as ((Hper & Hlen & Hpe) & Hwi & Hwd & Hm & Hn0 & HPhi).
@@ -434,7 +443,7 @@ Proof.
   assert (Hsn : snaps s = [] /\ bin x = []).
   { destruct (snaps s) as [|p sn]; cbn [mirrorT] in Hm; [tauto|].
     destruct sn as [|q sn']; [lia|]. destruct (bin x) as [|[k [a e]] st']; [tauto|]. lia. }
-  destruct Hsn as [Hsn Hbn]. rewrite Hsn in HPhi. cbn [segs] in HPhi. split; [lia|].
+  destruct Hsn as [Hsn Hbn]. rewrite Hsn in HPhi. cbn [segs] in HPhi. split; [lia|]. replace (d0 + T (pend n0s - n0s) S_) with (done x) by lia.
   assert (Hres : resume (S (S (S f))) s = resume (S (S f)) (mk PTOuter (n_ s) (r_ s) [])).
   { remember (S (S f)) as g. cbn [resume]. rewrite Epc, Hsn.
     replace (r_ s <? N - n0s) with false by (symmetry; apply Z.ltb_ge; lia).
@@ -444,11 +453,13 @@ Proof.
   replace (N - r_ s) with n0s by lia. fin.
 Qed.
 
-Theorem step_ok d0 s x f : Inv d0 s x -> Good x (resume (S (S (S (S f)))) s).
+Definition bonus (s : st) : Z :=
+  match pcv s with PTBlock n0s => if r_ s <? N - n0s then 0 else T (pend n0s - n0s) S_ | _ => 0 end.
+Theorem step_okD d0 s x f : Inv d0 s x -> GoodD (d0 + bonus s) x (resume (S (S (S (S f)))) s).
 Proof.
-  unfold Inv. intros Hinv. destruct (pcv s) eqn:Epc; unfold norm in Hinv; rewrite Epc in Hinv.
+  unfold Inv. intros Hinv. unfold bonus. destruct (pcv s) eqn:Epc; unfold norm in Hinv; rewrite Epc in Hinv; rewrite ?Z.add_0_r.
   - pose proof (outer_ok d0 s x (S (S f)) Hinv Epc) as H. exact H.
-  - destruct (Z.lt_ge_cases (r_ s) (N - n0s)) as [Hlt|Hge].
+  - destruct (Z.ltb_spec (r_ s) (N - n0s)) as [Hlt|Hge]; rewrite ?Z.add_0_r.
     + exact (block_ok d0 s x _ n0s Hinv Epc Hlt).
     + pose proof Hinv as (_ & Hr & Hpc). cbn zeta in Hpc. rewrite Epc in Hpc. destruct Hpc as (_ & _ & _ & _ & Hn0 & _).
       exact (proj2 (blockend_ok d0 s x (S f) n0s Hinv Epc ltac:(lia))).
@@ -464,11 +475,65 @@ Proof.
   - exact (adj_ok d0 s x _ n0s Hinv Epc).
   - exact (revact_ok d0 s x _ n0s Hinv Epc).
 Qed.
+Theorem step_ok d0 s x f : Inv d0 s x -> Good x (resume (S (S (S (S f)))) s).
+Proof. intros H. exact (GoodD_Good _ _ _ (step_okD d0 s x f H)). Qed.
 
 (* C13, block totals: when a block has been reversed completely, exactly T(L, b+1) forward steps were spent on it *)
 Theorem block_total d0 s x n0s : Inv d0 s x -> pcv s = PTBlock n0s -> r_ s = N - n0s -> done x = d0 + T (pend n0s - n0s) S_.
 Proof.
   unfold Inv, norm. intros Hinv Epc Hr. rewrite Epc in Hinv. exact (proj1 (blockend_ok d0 s x 0 n0s Hinv Epc Hr)).
+Qed.
+(* ---- which block the generator is in after a step; the pass counter ---- *)
+Definition pcb (q : pc) : option Z :=
+  match q with PTOuter => None | PTBlock a | PTAfterCopy a | PTInner a | PTAfterPush a _ | PTAdj a | PTRevAct a => Some a end.
+Definition blk (h : Z) : Z := (h - 1) / P * P.
+Lemma resume_pcb : forall f s s' a, resume f s = (s', Act a) ->
+  match pcv s with
+  | PTOuter => if r_ s <? N then pcb (pcv s') = Some (blk (N - r_ s)) else pcv s' = PTOuter /\ a = EndReverse /\ r_ s' = 0
+  | PTBlock n0s => if r_ s <? N - n0s then pcb (pcv s') = Some n0s
+                   else if r_ s <? N then pcb (pcv s') = Some (blk (N - r_ s)) else pcv s' = PTOuter /\ a = EndReverse /\ r_ s' = 0
+  | q => pcb (pcv s') = pcb q end /\ (a = EndReverse -> r_ s = N).
+Proof.
+  assert (Hblock : forall n0s n r sn s' a, resume 1 (mk (PTBlock n0s) n r sn) = (s', Act a) -> r < N - n0s -> pcb (pcv s') = Some n0s /\ a <> EndReverse).
+  { intros n0s n r sn s' a H Hlt. cbn [resume pcv n_ r_ snaps mk] in H. destruct (Z.ltb_spec r (N - n0s)); [|lia].
+    destruct sn as [|cp rest]; [discriminate|]. destruct (cp =? N - r - 1); injection H as <- <-; (split; [reflexivity|]); destruct (cp =? n0s); discriminate. }
+  assert (Hblockf : forall f n0s n r sn s' a, resume (S f) (mk (PTBlock n0s) n r sn) = (s', Act a) -> r < N - n0s -> pcb (pcv s') = Some n0s /\ a <> EndReverse).
+  { intros f n0s n r sn s' a H Hlt. apply (Hblock n0s n r sn); [|exact Hlt]. cbn [resume pcv n_ r_ snaps mk] in H |- *.
+    destruct (Z.ltb_spec r (N - n0s)); [|lia]. exact H. }
+  assert (Houter : forall f n r sn s' a, resume (S f) (mk PTOuter n r sn) = (s', Act a) ->
+     (if r <? N then pcb (pcv s') = Some (blk (N - r)) /\ a <> EndReverse else pcv s' = PTOuter /\ a = EndReverse /\ r = N /\ r_ s' = 0)).
+  { intros f n r sn s' a H. cbn [resume pcv n_ r_ snaps mk] in H. destruct (Z.ltb_spec r N) as [Hlt|Hge].
+    - destruct (negb _) eqn:En; [discriminate|]. apply negb_false_iff, Z.eqb_eq in En. destruct f as [|f]; [discriminate|].
+      unfold blk. replace (N - r - 1) with (N - r - 1) by lia.
+      apply (Hblockf f _ n r [(N - r - 1) / P * P]); [exact H|]. pose proof (Z.min_spec ((N - r - 1) / P * P + P) N). lia.
+    - destruct (Z.eqb_spec r N); cbn [negb] in H; [|discriminate]. injection H as <- <-. cbn [mk r_ pcv]. auto. }
+  intros f s s' a H. destruct s as [q n r sn]. cbn [pcv r_].
+  destruct f as [|f]; [discriminate|].
+  destruct q as [|n0s|n0s|n0s|n0s p0|n0s|n0s].
+  - pose proof (Houter f n r sn s' a H) as Ho. destruct (r <? N); [destruct Ho; split; [assumption|congruence]|destruct Ho as (A & B & C & D); auto].
+  - destruct (Z.ltb_spec r (N - n0s)) as [Hlt|Hge].
+    + destruct (Hblockf f n0s n r sn s' a H Hlt). split; [assumption|congruence].
+    + cbn [resume pcv n_ r_ snaps mk] in H. destruct (Z.ltb_spec r (N - n0s)); [lia|].
+      destruct (negb (r =? N - n0s)); [discriminate|]. destruct sn; [|discriminate]. destruct f as [|f]; [discriminate|].
+      pose proof (Houter f n r [] s' a H) as Ho. destruct (r <? N); [destruct Ho; split; [assumption|congruence]|destruct Ho as (A & B & C & D); auto].
+  - cbn [resume pcv n_ r_ snaps mk] in H. destruct (_ <? 1); [discriminate|]. injection H as <- <-. split; [reflexivity|discriminate].
+  - cbn [resume pcv n_ r_ snaps mk] in H. destruct (n <? N - r - 1).
+    + destruct (_ <? 1); [discriminate|]. injection H as <- <-. split; [reflexivity|discriminate].
+    + destruct (negb _); [discriminate|]. injection H as <- <-. split; [reflexivity|discriminate].
+  - cbn [resume pcv n_ r_ snaps mk] in H. destruct (_ >=? _); [discriminate|]. destruct f as [|f]; [discriminate|].
+    cbn [resume pcv n_ r_ snaps mk] in H. destruct (n <? N - r - 1).
+    + destruct (_ <? 1); [discriminate|]. injection H as <- <-. split; [reflexivity|discriminate].
+    + destruct (negb _); [discriminate|]. injection H as <- <-. split; [reflexivity|discriminate].
+  - cbn [resume pcv n_ r_ snaps mk] in H. injection H as <- <-. split; [reflexivity|discriminate].
+  - cbn [resume pcv n_ r_ snaps mk] in H. injection H as <- <-. split; [reflexivity|discriminate].
+Qed.
+Lemma exec_passes x a x' : exec x a = Some x' -> passes x' = passes x + (match a with EndReverse => 1 | _ => 0 end).
+Proof.
+  destruct a as [n0 n1 wi wa sg|n1 n0 cl|n src dst|n src dst| |]; cbn [exec]; intros H;
+    repeat match type of H with
+    | context [match ?z with _ => _ end] => let E := fresh "E" in destruct z eqn:E
+    | context [if ?z then _ else _] => let E := fresh "E" in destruct z eqn:E
+    end; try discriminate; injection H as <-; cbn [passes]; lia.
 Qed.
 End TL.
 Print Assumptions step_ok.
